@@ -570,6 +570,53 @@ def st1(ctx, R):
             reads_status = other == ("sub", P, STATUS) or (other[0] == "method" and other[1] == "get" and other[2] == P and other[3] and other[3][0] == STATUS)
             tests.append((t, c, reads_status))
     if not tests:
+        # the test may live in the caller that walks the scopes (channel, group, file): then every call of the builder must be guarded by a
+        # status test on the SAME property map it is given
+        from .sem import calls_to, call_arg
+        from .sym import alpha
+        decided = False
+        for g in sorted(prog.functions.values(), key=lambda f: f.qual):
+            if g.module is not fi.module or g is fi:
+                continue
+            sites = calls_to(prog, g, fi.qual, g.cls)
+            if not sites:
+                continue
+            sg = Sym(prog, g, g.cls, inline=False)
+
+            def status_maps(conds):
+                out = []
+                for c_ in conds:
+                    for hit, _b in find(c_, ("cmp", W(), W(), W())):
+                        if ("const", "scaled") not in (hit[2], hit[3]):
+                            continue
+                        other = hit[3] if hit[2] == ("const", "scaled") else hit[2]
+                        if other[0] == "sub" and other[2] == STATUS:
+                            out.append(other[1])
+                        elif other[0] == "method" and other[1] == "get" and other[3] and other[3][0] == STATUS:
+                            out.append(other[2])
+                return out
+            all_tested = []
+            for t_ in walk_body(g.node):
+                if isinstance(t_, ast.Compare):
+                    e_, _gg = sg.env_at(t_)
+                    all_tested += status_maps([sg.expr(t_, e_)])
+            for cc in sites:
+                e2, guards = sg.env_at(cc)
+                M = call_arg(prog, cc, fi, fi.params[0], sg, e2)
+                tested_here = status_maps(guards)
+                key = "%s::status tested on the scope that is built" % g.qual
+                if M is None:
+                    continue
+                if M in tested_here:
+                    decided = True
+                    R.ok(key, g.where(cc), "the builder is called for `%s` after its own NI_Scaling_Status was tested" % show(alpha(M))[:60])
+                elif all_tested:
+                    decided = True
+                    R.violation(key, g.where(cc), "the scaling is built from `%s`, but the only NI_Scaling_Status tested is that of `%s`: a scope (group or file) marked "
+                                "'scaled' still has its scale definitions applied, and a channel marked 'scaled' hides the scaling of its group or file" % (
+                                    show(alpha(M))[:60], show(alpha(all_tested[0]))[:60]))
+        if decided:
+            return
         raise AnchorMissing("scaling._get_channel_scaling: test of NI_Scaling_Status")
     t, c, reads_status = tests[0]
     R.check(reads_status, "scaling._get_channel_scaling::status property", fi.where(t.ast),
@@ -631,7 +678,12 @@ def ao1(ctx, R):
         R.check(order == params, "scaling.get_scaling::lookup order", gs.where(), "tries %s in order" % [p[1] for p in params],
                 "scopes are tried in the order %s (expected the parameter order %s)" % ([show(x) for x in order] if order else show(b["it"]), [p[1] for p in params]))
         elt_ok = b["elt"] == ("call", gcs.qual, (b["bv"],), ())
-        first = elt_ok and b["conds"] == (("cmp", "is not", b["elt"], ("const", None)),) and b["rest"] == ("const", None)
+        want_cond = ("cmp", "is not", b["elt"], ("const", None))
+        # further conditions that only look at the scope's own properties (e.g. its NI_Scaling_Status, tested in the caller) skip scopes, they
+        # do not change which of the remaining scopes comes first
+        extra = [c_ for c_ in b["conds"] if c_ != want_cond]
+        extra_ok = all(not find(c_, ("call", gcs.qual, W(), W())) and not any(find(c_, p_) for p_ in params) for c_ in extra)
+        first = elt_ok and want_cond in b["conds"] and extra_ok and b["rest"] == ("const", None)
         R.check(first, "scaling.get_scaling::first non-None wins", gs.where(), "the first scope with a scaling wins; None if there is none",
                 "the first scope with a scaling does not win: `%s`" % show(v)[:200])
     # TdmsChannel._scaling -> attributes per priority
